@@ -1,5 +1,6 @@
 import PallasVerif.Model.IdHash
 import PallasVerif.Proofs.Cbor
+import PallasVerif.Proofs.Traverse
 /-!
 # C05 — identity hashes are taken over the original on-wire bytes (partial)
 
@@ -11,6 +12,8 @@ all byte strings:
 * `elemSpan_is_slice` / `txId_is_hash_of_slice` — the hashed span of element `k` is literally a
   contiguous slice `bs = pre ++ span ++ post` of the wire bytes, where `pre` is the container head
   followed by the spans of the preceding elements, and the span is exactly one well-formed item;
+* `blockHash_is_hash_of_slice`, `itemsOfKey_slices` — the same for the header inside a block and for
+  the witness-set datums / native scripts inside a witness set;
 * `encode_injective` / `id_input_changes_with_encoding` — two different concrete encodings
   (definite vs indefinite, wider heads, reordered entries, chunked strings …) are different hash
   inputs, so an identifier computed from any normalising re-encoding cannot agree with these
@@ -137,6 +140,77 @@ theorem txId_is_hash_of_slice (bs d : Bytes) (h : txId bs = some d) :
   | str _ _ => simp [Item.arrayItems?] at ha
   | strIndef _ _ => simp [Item.arrayItems?] at ha
   | tag _ _ => simp [Item.arrayItems?] at ha
+
+/-! ## block hash, witness-set datums and native scripts: slices too -/
+
+open PallasVerif.TxView PallasVerif.Traverse.Slices in
+/-- the block hash is BLAKE2b-256 of (the Byron prefix and) a contiguous slice of the block bytes -/
+theorem blockHash_is_hash_of_slice (bs d : Bytes) (h : blockHash bs = some d) :
+    ∃ (tag : Nat) (span : Bytes), Slice span bs ∧ isSingleItem span = true ∧ d = headerHash tag span := by
+  unfold blockHash at h
+  cases hv : viewBlock bs with
+  | none => simp [hv] at h
+  | some v =>
+    simp only [hv, Option.some.injEq] at h
+    unfold viewBlock at hv
+    split at hv
+    · rename_i top hp
+      obtain ⟨e, wtop⟩ := parseItem_sound bs top [] hp
+      have e' : bs = top.encode := by simpa using e
+      obtain ⟨hh, _, _, _, _, hwf⟩ := view_parts_are_slices top v hv
+      exact ⟨v.tag, v.header.encode, by rw [e']; exact hh, isSingleItem_encode _ (hwf wtop), h.symm⟩
+    · cases hv
+
+open PallasVerif.TxView PallasVerif.Traverse.Slices in
+theorem mapGet_mem (k : Nat) : ∀ (es : List (Item × Item)) (v : Item), mapGet k es = some v → ∃ p ∈ es, p.2 = v
+  | [], v, h => by simp [mapGet] at h
+  | (key, x) :: rest, v, h => by
+    simp only [mapGet] at h
+    split at h
+    · cases h; exact ⟨(key, x), by simp, rfl⟩
+    · obtain ⟨p, hp, e⟩ := mapGet_mem k rest v h
+      exact ⟨p, List.mem_cons_of_mem _ hp, e⟩
+
+open PallasVerif.TxView PallasVerif.Traverse.Slices in
+theorem slice_untag258 (v : Item) : Slice (untag258 v).encode v.encode := by
+  cases v with
+  | tag h i =>
+    simp only [untag258]
+    split
+    · exact ⟨h.encode, [], by simp [Item.encode]⟩
+    · exact Slice.refl _
+  | atom _ => exact Slice.refl _
+  | str _ _ => exact Slice.refl _
+  | strIndef _ _ => exact Slice.refl _
+  | seq _ _ => exact Slice.refl _
+  | seqIndef _ _ => exact Slice.refl _
+
+open PallasVerif.TxView PallasVerif.Traverse.Slices in
+/-- every datum / native-script span that is hashed is a contiguous slice of the witness-set bytes -/
+theorem itemsOfKey_slices (set : Bool) (k : Nat) (m x : Item) (hx : x ∈ itemsOfKey set k m) :
+    Slice x.encode m.encode := by
+  unfold itemsOfKey at hx
+  cases hm : m.mapEntries? with
+  | none => simp [hm] at hx
+  | some es =>
+    simp only [hm] at hx
+    cases hg : mapGet k es with
+    | none => simp [hg] at hx
+    | some v =>
+      simp only [hg] at hx
+      obtain ⟨p, hp, rfl⟩ := mapGet_mem k es v hg
+      have hv : Slice p.2.encode m.encode := slice_child m p.2 (Or.inr ⟨es, hm, p, hp, Or.inr rfl⟩)
+      cases ha : (if set then untag258 p.2 else p.2).arrayItems? with
+      | none => simp [ha] at hx
+      | some xs =>
+        simp only [ha, Option.getD_some] at hx
+        have h1 : Slice x.encode (if set then untag258 p.2 else p.2).encode := slice_arr ha hx
+        have h2 : Slice (if set then untag258 p.2 else p.2).encode p.2.encode := by
+          cases set
+          · simpa using Slice.refl _
+          · simpa using slice_untag258 p.2
+        exact (h1.trans h2).trans hv
+
 
 /-! ## different encodings are different hash inputs -/
 
